@@ -250,7 +250,17 @@ func (d *Driver) AnswerPing(ev *pingEvent, alive bool, newRec *enode.Node) (hand
 	} else {
 		ev.reply <- pingAnswer{0, errDead}
 	}
-	if started := d.RevalInc(id); !before.present || (started != 0 && started != before.inc) {
+	moved := false
+	if before.present {
+		for _, b := range d.Tab.VerifSnapshot(false).Buckets {
+			for _, e := range b.Entries {
+				if e.ID == id && (e.IP != ev.node.IPAddr() || e.UDP != ev.node.UDP()) {
+					moved = true // the entry has another endpoint than the one pinged: the table ignores the result
+				}
+			}
+		}
+	}
+	if started := d.RevalInc(id); !before.present || moved || (started != 0 && started != before.inc) {
 		// removed (or removed and added again as a new entry object) while being checked: the response is
 		// dropped by the table, nothing to observe
 		for i := 0; i < 3; i++ {
